@@ -204,6 +204,12 @@ fn universes(thorough: bool) -> Vec<Universe> {
         depth,
         rich: false,
     };
+    // debugging aid: VH_ONLY_PROGRAM=<name> restricts the curated universe
+    if let Ok(only) = std::env::var("VH_ONLY_PROGRAM") {
+        let mut u = cur(if thorough { 5 } else { 3 }, thorough);
+        u.programs.retain(|(n, _)| *n == only);
+        return vec![u];
+    }
     if thorough {
         vec![
             cur(5, true),
